@@ -581,6 +581,41 @@ func runC06Hit(c *Ctx, a *attackAnchors) {
 	}
 	c.Check(len(reqWrites) == 0, "request-untouched:(*lib.Attacker).hit", rReqW, "only TransferEncoding is assigned", "hit overwrites Request."+badField+" (bytes-out is taken from ContentLength; method, URL and body are the target's)", c.atsOr(reqWrites, hit)...)
 
+	// ---- and the builder leaves the length http.NewRequest derived from the body alone: bytes-out is
+	// read from Request.ContentLength, so a builder that declares the length unknown (-1, chunked) or
+	// swaps the body loses it although the whole body is sent
+	const rReqB = "Target.Request lets http.NewRequest derive ContentLength and Body from the target's body and stores neither afterwards (bytes-out is read from Request.ContentLength)"
+	if rq := c.P.Func("lib", "Target.Request"); rq == nil {
+		c.Undecided("request-length:(*lib.Target).Request", rReqB, "lib.Target.Request not found")
+	} else {
+		var bad, mk []ssa.Instruction
+		for _, g := range region(rq) {
+			eachInstr(g, func(i ssa.Instruction) {
+				if isCallTo(i, "net/http.NewRequest", "net/http.NewRequestWithContext") {
+					mk = append(mk, i)
+				}
+				st, ok := i.(*ssa.Store)
+				if !ok {
+					return
+				}
+				fa, ok := st.Addr.(*ssa.FieldAddr)
+				if !ok || !isNamedType(fa.X.Type(), "net/http", "Request") {
+					return
+				}
+				switch fieldName(fa.X.Type(), fa.Field) {
+				case "ContentLength", "Body", "GetBody":
+					bad = append(bad, st)
+				}
+			})
+		}
+		sortInstrs(bad)
+		if len(bad) > 0 {
+			c.Fail("request-length:(*lib.Target).Request", rReqB, "the request builder overwrites the length or body http.NewRequest set up: bytes-out no longer equals the request body length", c.ats(bad)...)
+		} else {
+			c.Check(len(mk) == 1, "request-length:(*lib.Target).Request", rReqB, "http.NewRequest(method, url, body reader); length and body left alone", fmt.Sprintf("%d http.NewRequest calls in Target.Request", len(mk)), c.atsOr(mk, rq)...)
+		}
+	}
+
 	c06HeaderCase(c)
 	c06Request(c)
 	c06Redirects(c)
